@@ -10,6 +10,9 @@
 (*   hins     the byte strings the code under test fed to SHA-256, as       *)
 (*            recorded at admin.ledger_utils.sha256 (small images only)     *)
 (*   expected the oracle digest, Seq(0..255)                                *)
+(*   total    the size of the image (sum of the generator's area lengths)   *)
+(*   hinlens  the number of bytes each hashing call fed to SHA-256 (every   *)
+(*            image, whatever its size)                                     *)
 (*   reports  [via, ok, digest]: what compute_app_hash returned, what       *)
 (*            `signapp hash` and signonetime printed                        *)
 (*   pareas   (parsed = TRUE) the area list ledgerblue's IntelHexParser     *)
@@ -43,11 +46,12 @@ TInit == /\ tid \in 1..Len(Traces) /\ obs = InitObs /\ bad = "" /\ note = ""
 
 AreaSet == RangeOf(T.areas)
 
-StructClauses == IF ~T.small THEN <<>> ELSE <<
+StructClauses == (IF ~T.small THEN <<>> ELSE <<
     <<"Machinery:FileParses",  T.mayrefuse \/ ParseOk(T.file)>>,
     <<"Machinery:FileIsImage", ParseOk(T.file) => HashInputOf(T.file) = ConcatSorted(AreaSet)>>,
     <<"Machinery:OracleInput", T.oin = ConcatSorted(AreaSet)>>,
-    <<"HashInputOk",           \A i \in DOMAIN T.hins : HashInputOkP(AreaSet, T.hins[i])>> >>
+    <<"HashInputOk",           \A i \in DOMAIN T.hins : HashInputOkP(AreaSet, T.hins[i])>> >>) \o <<
+    <<"HashedLength",          \A i \in DOMAIN T.hinlens : HashedLengthP(T.total, T.hinlens[i])>> >>
 
 \* is the library the parser the model says it is?  (drift, not a verdict)
 DriftNote == IF ~T.small THEN ""
